@@ -12,6 +12,11 @@
 // combination with at least one failing store x strategy {WARN, ABORT, legacy PartialResponseDisabled bit alone}
 // x retrieval {eager, lazy buffer 1..2 (thorough ..3)} x ResponseBatchSize {0,2 (thorough 3)} x response
 // timeout {none, 1s virtual}.
+// Error-kind blocks (1..2 stores): every failing store additionally ranges over the KIND of error value it fails
+// with (rig_test.go errKinds / hangKinds: plain, gRPC status Canceled / DeadlineExceeded / Unavailable / Aborted,
+// bare context errors, io.ErrUnexpectedEOF; a hanging Recv returns the bare context error or the gRPC status a
+// real client stream makes of it). A fake that only fails with plain errors never exercises code that classifies
+// Recv errors by status code.
 //
 // Oracle = the statement: with the abort strategy Series returns an error; with the warn strategy Series
 // returns nil, there is at least one warning naming each failed store, and every series (label set and all
